@@ -17,7 +17,7 @@ THEOREMS = ["Rsp.Tie.C17.lockExprs_classified", "Rsp.Tie.C17.newrqref_protocol",
             "Rsp.Props.C17.tame_sendrq", "Rsp.Props.C17.tame_radsrv", "Rsp.Props.C17.tame_replyh",
             "Rsp.Props.C17.writerSlot_inv", "Rsp.Props.C17.writerScan_inv", "Rsp.Props.C17.newrequest_inv", "Rsp.Props.C17.writerPass_good",
             "Rsp.Props.C17.writerOp_good", "Rsp.Props.C17.step_good", "Rsp.Props.C17.initial_good", "Rsp.Props.C17.initialOk_sound",
-            "Rsp.Props.C17.history_good", "Rsp.Props.C17.history_counts", "Rsp.Props.C17.history_rmclient_clears"]
+            "Rsp.Props.C17.udpRecv_good", "Rsp.Props.C17.tcpConn_good", "Rsp.Props.C17.history_good", "Rsp.Props.C17.history_counts", "Rsp.Props.C17.history_rmclient_clears"]
 RULE = ("histories over {request, retransmission, identifier reuse, reply, bogus reply, writer timer step, clock advance, connection reset, client disconnect} on 2-4 "
         "associations and 1-3 servers, closed by disconnecting every client and running all timers out; after EVERY operation the real objects' reference counts are compared "
         "with the number of slots/cache entries/queue entries pointing at them; the mutex pairs (held, acquired) exhibited by the real code are checked against the ranked "
